@@ -2,6 +2,7 @@ package main
 
 import (
 	"go/token"
+	"go/types"
 	"math/big"
 
 	"golang.org/x/tools/go/ssa"
@@ -105,6 +106,31 @@ type byteEq func(o ssa.Value) bool
 // Conditions not about the value leave the set unchanged.
 func refineByCond(s *ByteSet, cond ssa.Value, truth bool, is byteEq) *ByteSet {
 	switch c := cond.(type) {
+	case *ssa.Call:
+		// a small in-package predicate f(c byte[, ...]) bool applied to the tracked value: use its exact
+		// byte partition (bytes whose outcome depends on other arguments are left undecided)
+		cal := c.Call.StaticCallee()
+		if cal == nil || cal.Blocks == nil || len(c.Call.Args) == 0 || !is(c.Call.Args[0]) || len(cal.Blocks) > 40 {
+			return s
+		}
+		if bt, ok := cal.Signature.Results().At(0).Type().Underlying().(*types.Basic); !ok || bt.Kind() != types.Bool || cal.Signature.Results().Len() != 1 {
+			return s
+		}
+		yes, no := emptySet(), emptySet()
+		for _, o := range byteDecision(nil, cal) {
+			switch o.Result {
+			case "true":
+				yes = yes.union(o.Bytes)
+			case "false":
+				no = no.union(o.Bytes)
+			default:
+				yes, no = yes.union(o.Bytes), no.union(o.Bytes)
+			}
+		}
+		if truth {
+			return s.filter(func(i int) bool { return yes.has(i) })
+		}
+		return s.filter(func(i int) bool { return no.has(i) })
 	case *ssa.UnOp:
 		if c.Op == token.NOT {
 			return refineByCond(s, c.X, !truth, is)
